@@ -12,7 +12,7 @@ env C14_SCANDIR=reverse  — make os.scandir (as seen by lian/preparation.py) re
 """
 import builtins, json, os, sys
 
-HARVEST = {"map_args": [], "require": [], "array_types": [], "bundle_export": [], "call_paths": [], "path_adds": [],
+HARVEST = {"map_args": [], "require": [], "array_types": [], "mock_unit": [], "bundle_export": [], "call_paths": [], "path_adds": [],
            "scandir": [], "modules": None, "consts": None}
 LIMIT = 300          # records kept per site
 
@@ -170,6 +170,42 @@ def install():
                 pass
         return r
     ss.StmtStates.require_stmt_state = require_stmt_state
+
+    # ---- GIRParser.parse: was the unit preprocessed as extern mock code?
+    from lian.lang import lang_analysis as la
+    from lian.config.constants import EVENT_KIND
+    orig_parse = la.GIRParser.parse
+    HARVEST["consts"]["mock_marker"] = "%s/%s" % (config.DEFAULT_WORKSPACE, config.EXTERNS_DIR)
+
+    def gir_parse(self, unit_info, file_path, lang_option, lang_table):
+        fired = []
+        em = self.event_manager
+        real_notify = em.notify
+
+        def notify(event):
+            try:
+                if event.event == EVENT_KIND.MOCK_SOURCE_CODE_READY:
+                    fired.append(1)
+            except Exception:
+                pass
+            return real_notify(event)
+        em.notify = notify
+        try:
+            r = orig_parse(self, unit_info, file_path, lang_option, lang_table)
+        finally:
+            try:
+                del em.notify
+            except Exception:
+                em.notify = real_notify
+        try:
+            if len(HARVEST["mock_unit"]) < LIMIT:
+                HARVEST["mock_unit"].append({"unit_path": str(file_path),
+                                             "is_extern": bool(getattr(unit_info, "is_extern", False)),
+                                             "real": bool(fired)})
+        except Exception:
+            pass
+        return r
+    la.GIRParser.parse = gir_parse
 
     # ---- typescript_parser.Parser.array: element node types -> data_type of the new_array statement
     from lian.lang import typescript_parser as tsp
